@@ -538,7 +538,7 @@ var fnOps = []struct {
 	{"RectClipPathsD", 2}, {"RectClipPathD", 1}, {"RectClipLinesPathsD", 1}, {"RectClipLinesPathD", 1},
 	{"TrimCollinear64", 2}, {"TrimCollinearD", 2}, {"SimplifyPath64", 2}, {"SimplifyPaths64", 1}, {"SimplifyPathD", 1}, {"SimplifyPathsD", 1},
 	{"StripDuplicates", 1}, {"Area64", 3}, {"AreaD", 1}, {"GetBounds64", 1}, {"ReversePath", 1}, {"Translate64", 1}, {"TranslateD", 1},
-	{"Scale64", 2}, {"ScaleD", 2}, {"PointInPolygon", 2}, {"Ellipse64", 2}, {"EllipseD", 1}, {"Scalars", 1}, {"Group", 1},
+	{"Scale64", 2}, {"ScaleD", 2}, {"PointInPolygon", 2}, {"Ellipse64", 2}, {"EllipseD", 1}, {"Scalars", 1}, {"Group", 1}, {"Internals", 1},
 }
 
 var fnOpsTotal int
@@ -680,6 +680,10 @@ func (g *Gen) fnOpNamed(name string) Op {
 		for i := 0; i < 6; i++ {
 			op.I = append(op.I, int64(g.f(-S, S)))
 			op.F = append(op.F, math.Round(g.f(-S, S)*100)/100)
+		}
+	case "Internals":
+		for i := 0; i < 4; i++ {
+			op.I = append(op.I, int64(g.f(-S, S)))
 		}
 	case "Group":
 		op.I = []int64{int64(g.n(4)), int64(g.n(5))}
